@@ -175,6 +175,25 @@ def failure_scenarios():
                  inputs=([1, 2],), oracle={"f": [{"ok": 1}, {"error": "Boom"}]}))
     S.append(scn("par-inner-catch", SM("P", P=Par([SM("A", A=T("f", Catch=[{"ErrorEquals": ["States.ALL"], "Next": "A2"}], End=True), A2=P(End=True, Result="a2")),
                                                     SM("B", B=T("g", End=True))], End=True)), oracle=boom))
+    # the sibling of the failing branch is itself a fan-out whose inner branches wait on a reply / a timer
+    S.append(scn("nested-sib-fail", SM("P", P=Par([SM("A", A=T("f", End=True)),
+                                                   SM("Q", Q=Par([SM("X", X=T("g", End=True)), SM("Y", Y=Wt(5, End=True))], End=True))], End=True)), oracle=boom))
+    S.append(scn("nested-sib-fail-map", SM("P", P=Par([SM("A", A=T("f", End=True)),
+                                                       SM("M", M=Mp(SM("X", X=T("g", End=True)), End=True))], End=True)), inputs=([1, 2],), oracle=boom))
+    # an error caught INSIDE a branch (recovery still queued / in flight) while a peer branch fails fatally
+    S.append(scn("par-caught-peer-fails", SM("P", P=Par([SM("A", A=T("f", Catch=[{"ErrorEquals": ["States.ALL"], "Next": "A2"}], End=True), A2=T("r", End=True)),
+                                                         SM("B", B=T("g", End=True))], End=True)),
+                 oracle={"f": [{"error": "Boom"}], "g": [{"error": "Fatal"}]}))
+    S.append(scn("par-caught-pass-peer-fails", SM("P", P=Par([SM("A", A=T("f", Catch=[{"ErrorEquals": ["States.ALL"], "Next": "A2"}], End=True), A2=P(End=True, Result="a2")),
+                                                              SM("B", B=T("g", End=True))], End=True)),
+                 oracle={"f": [{"error": "Boom"}], "g": [{"error": "Fatal"}]}))
+    # a nested fan-out event arriving after its enclosing branch was terminated
+    S.append(scn("nested-late", SM("P", P=Par([SM("A", A=T("f", End=True)),
+                                               chain(("B1", P()), ("B2", Par([SM("C", C=P(End=True)), SM("D", D=P(End=True))])))], End=True)), oracle=boom))
+    # a Task-level Retry inside a branch
+    S.append(scn("par-branch-retry", SM("P", P=Par([SM("A", A=T("f", Retry=[{"ErrorEquals": ["Boom"], "IntervalSeconds": 1, "MaxAttempts": 1}], End=True)),
+                                                    SM("B", B=T("g", End=True))], End=True)),
+                 oracle={"f": [{"error": "Boom"}, {"ok": 1}]}))
     S.append(scn("par-timeout", SM("P", P=Par([SM("A", A=T("f", TimeoutSeconds=2, End=True)), SM("B", B=T("g", End=True))], End=True)),
                  oracle={"f": [{"silent": True}]}))
     return S
